@@ -34,7 +34,7 @@ func init() {
 		Run:   run,
 		Setup: func(c *core.Ctx) { c.State = &aliasState{} },
 		Floors: func(t string) map[string]int64 {
-			return map[string]int64{"coord.nan_payload": 100, "coord.neg_zero": 100, "nested.depth>=2": 100, "empty.member": 100, "mixed_order.decoded": 1000, "path.len>=255": 50, "path.len>=4097": 20,
+			return map[string]int64{"coord.nan_payload": 100, "coord.neg_zero": 100, "nested.depth>=2": 100, "empty.member": 100, "mixed_order.decoded": 1000, "path.len>=255": 50, "path.len>=4097": 20, "history.failed_call_first": 1000,
 				"type.Point": 10, "type.MultiPoint": 10, "type.LineString": 10, "type.MultiLineString": 10, "type.Polygon": 10, "type.MultiPolygon": 10, "type.GeometryCollection": 10}
 		},
 	})
@@ -51,7 +51,13 @@ func GenGeom(r *gen.R, maxDepth int, coord func(*gen.R) float64) geom.Geom {
 		o.MaxVerts = 40
 	}
 	g := gen.RandGeom(r, o, 0)
-	if r.Chance(0.04) {
+	if r.Chance(0.01) {
+		// 127..8192 small members
+		g = gen.ManyMembers(r, []int{gen.KMultiPoint, gen.KMultiLineString, gen.KPolygon, gen.KMultiPolygon}[r.Intn(4)], coord)
+		if r.Bool() {
+			g = geom.GeometryCollection{g, geom.Point{X: coord(r), Y: coord(r)}}
+		}
+	} else if r.Chance(0.04) {
 		// long paths (beyond any internal read-chunk size of the decoder: 255, 256, 257, 512, 1000+ points)
 		n := []int{255, 256, 257, 511, 512, 513, 1000, 2049}[r.Intn(8)]
 		if r.Chance(0.3) {
@@ -205,6 +211,32 @@ func run(c *core.Ctx, idx int) {
 	detail := map[string]interface{}{"geometry": gen.Dump(g)}
 	if c.WantSample() && d >= 1 {
 		c.Sample(detail)
+	}
+	if r.Chance(0.08) {
+		// an earlier call that fails: a collection holding a member the codec cannot encode
+		// (a *Bounds, a nil) after some members it can; also decoders fed a truncated or
+		// malformed input, and a reader that hit an error. Whatever the failed call left behind
+		// must not leak into the calls judged below.
+		var bad geom.Geom
+		switch r.Intn(3) {
+		case 0:
+			bad = geom.GeometryCollection{geom.Point{X: 3, Y: 4}, &geom.Bounds{Min: geom.Point{X: 0, Y: 0}, Max: geom.Point{X: 1, Y: 1}}}
+		case 1:
+			bad = geom.GeometryCollection{geom.LineString{{X: 1, Y: 2}, {X: 3, Y: 4}}, geom.GeometryCollection{geom.Point{X: 5, Y: 6}, nil}}
+		default:
+			bad = geom.GeometryCollection{geom.MultiPoint{{X: 1, Y: 1}}, geom.Polygon{{{X: 0, Y: 0}, {X: 1, Y: 0}, {X: 0, Y: 1}}}, &geom.Bounds{}}
+		}
+		core.Try(func() {
+			if r.Bool() {
+				wkb.Encode(bad, wkb.NDR)
+			} else {
+				hex.Encode(bad, wkb.XDR)
+			}
+		})
+		core.Try(func() { wkb.Decode([]byte{1, 7, 0, 0, 0, 2, 0, 0, 0, 1, 1, 0, 0, 0, 0, 0}) })
+		core.Try(func() { hex.Decode("0107000000020000000101") })
+		core.Try(func() { wkb.Read(bytes.NewReader([]byte{0, 0, 0, 0, 2, 0, 0, 0, 9, 1, 2, 3})) })
+		c.Count("history.failed_call_first")
 	}
 	for _, le := range []bool{false, true} {
 		c.Eval()
